@@ -892,7 +892,7 @@ Section CGProofs.
     (out_iter o = 0%Z \/ out_err o = norm (out_r o) / bnrm) /\
     (iter <= out_iter o <= iter + Z.of_nat fuel)%Z /\
     (fuel <> 0%nat -> iter < out_iter o)%Z /\
-    ((out_iter o < iter + Z.of_nat fuel)%Z -> out_err o <= tol) /\
+    ((out_iter o < iter + Z.of_nat fuel)%Z -> out_err o <= tol \/ out_err o = 0) /\
     (out_iter o = iter -> forall q, out_x o q = x q).
   Proof.
     induction fuel as [|fuel IH]; intros iter x r p bkden err Hres Herr; cbv zeta.
@@ -900,6 +900,11 @@ Section CGProofs.
       repeat split; auto; try lia.
     - cbn [cg_loop].
       set (bknum := vdot Rops P pts r r).
+      destruct (neqb Rops bknum (n0 Rops)) eqn:Eb0.
+      { cbn [neqb n0 Rops] in Eb0. apply Reqb_true in Eb0. unfold out_x, out_r, out_iter, out_err. cbn [fst snd].
+        assert (Hn0 : norm r = 0) by (unfold l2norm; fold bknum; rewrite Eb0; cbn [nsqrt Rops]; apply sqrt_0).
+        repeat split; auto; try lia; try (intros _; right; reflexivity).
+        right. rewrite Hn0. cbn [n0 Rops]. unfold Rdiv. ring. }
       set (p' := if (iter + 1 =? 1)%Z then tabR r else tabR (fun q => nadd Rops (nmul Rops (ndiv Rops bknum bkden) (p q)) (r q))).
       set (z := tabR (A p')).
       set (ak := ndiv Rops bknum (vdot Rops P pts z p')).
@@ -927,7 +932,7 @@ Section CGProofs.
     is_residual b (out_x o) (out_r o) /\
     (0 <= out_iter o <= Z.of_nat itmax)%Z /\
     ((1 <= out_iter o)%Z -> out_err o = norm (out_r o) / norm b /\ 0 < norm b) /\
-    ((1 <= out_iter o < Z.of_nat itmax)%Z -> out_err o <= tol) /\
+    ((1 <= out_iter o < Z.of_nat itmax)%Z -> out_err o <= tol \/ out_err o = 0) /\
     (out_iter o = 0%Z -> forall q, out_x o q = x0 q).
   Proof.
     cbv zeta. unfold cg_solve.
@@ -996,6 +1001,12 @@ Section CGProofs.
     rewrite El. cbn [cg_loop].
     change (0 + 1 =? 1)%Z with true. cbv iota.
     set (bknum := vdot Rops P pts r0 r0).
+    assert (Eb0 : neqb Rops bknum (n0 Rops) = false).
+    { cbn [neqb n0 Rops]. destruct (Reqb' bknum 0) eqn:E; [|reflexivity]. apply Reqb_true in E. exfalso.
+      unfold bknum in E. rewrite vdot_eq in E.
+      rewrite (lsumR_ext _ (fun q => b q * b q)) in E by (intros q Hq; rewrite Hr0 by auto; reflexivity).
+      rewrite norm_eq in Hb. rewrite E, sqrt_0 in Hb. lra. }
+    rewrite Eb0.
     set (p' := tabR r0).
     set (z := tabR (A p')).
     set (ak := ndiv Rops bknum (vdot Rops P pts z p')).
@@ -1100,6 +1111,14 @@ Section CGProofs.
     - cbn [cg_loop].
       set (bknum := vdot Rops P pts r r). set (bknum' := vdot Rops P pts r' r').
       assert (Ebk : bknum' = c * c * bknum) by (unfold bknum, bknum'; rewrite !vdot_eq; apply ip_eqc; auto).
+      assert (Eb0 : neqb Rops bknum' (n0 Rops) = neqb Rops bknum (n0 Rops)).
+      { cbn [neqb n0 Rops]. rewrite Ebk. destruct (Reqb' bknum 0) eqn:E1.
+        - apply Reqb_true in E1. rewrite E1. apply Reqb_true. ring.
+        - destruct (Reqb' (c * c * bknum) 0) eqn:E2; [|reflexivity]. apply Reqb_true in E2.
+          assert (bknum = 0) by (destruct (Rmult_integral _ _ E2) as [Hcc|Hb]; [destruct (Rmult_integral _ _ Hcc); contradiction | exact Hb]).
+          apply Reqb_true in H. congruence. }
+      rewrite Eb0. destruct (neqb Rops bknum (n0 Rops));
+        [unfold out_iter, out_err, out_x, out_r; cbn [fst snd]; auto|].
       set (p1 := if (iter + 1 =? 1)%Z then tabR r else tabR (fun q => nadd Rops (nmul Rops (ndiv Rops bknum bkden) (p q)) (r q))).
       set (p1' := if (iter + 1 =? 1)%Z then tabR r' else tabR (fun q => nadd Rops (nmul Rops (ndiv Rops bknum' bkden') (p' q)) (r' q))).
       assert (Hp1 : eqc c p1' p1).
@@ -1250,6 +1269,7 @@ Section CGProofs.
     - cbn [cg_loop]. unfold out_x. cbn [fst]. lra.
     - cbn [cg_loop].
       set (bknum := vdot Rops P pts r r).
+      destruct (neqb Rops bknum (n0 Rops)) eqn:Eb0; [unfold out_x; cbn [fst]; lra|].
       set (p' := if (iter + 1 =? 1)%Z then tabR r else tabR (fun q => nadd Rops (nmul Rops (ndiv Rops bknum bkden) (p q)) (r q))).
       set (z := tabR (A p')).
       set (ak := ndiv Rops bknum (vdot Rops P pts z p')).
@@ -1326,6 +1346,10 @@ Section CGProofs.
   Proof.
     intros Hres Hpos. cbn [cg_loop]. change (0 + 1 =? 1)%Z with true. cbv iota.
     set (bknum := vdot Rops P pts r r).
+    assert (Eb0 : neqb Rops bknum (n0 Rops) = false).
+    { cbn [neqb n0 Rops]. destruct (Reqb' bknum 0) eqn:E; [|reflexivity]. apply Reqb_true in E.
+      unfold bknum in E. rewrite vdot_eq in E. lra. }
+    rewrite Eb0.
     set (p' := tabR r).
     set (z := tabR (A p')).
     set (ak := ndiv Rops bknum (vdot Rops P pts z p')).
@@ -1423,7 +1447,7 @@ Section Poisson2.
     lsumR D pts = 0 /\
     ((1 <= out_iter _ o)%Z -> out_err _ o <= tol -> nrm (fun p => D p - A (out_x _ o) p) <= tol * nrm D) /\
     ((1 <= out_iter _ o)%Z -> out_err _ o = 0 -> forall p, in_pmf2 sh p -> A (out_x _ o) p = D p) /\
-    ((1 <= out_iter _ o < Z.of_nat itmax)%Z -> out_err _ o <= tol).
+    ((1 <= out_iter _ o < Z.of_nat itmax)%Z -> out_err _ o <= tol \/ out_err _ o = 0).
   Proof.
     intros Hc. cbv zeta. unfold integrate2.
     assert (Hd : forall q, In q pts -> dv2 st q = div_value2 Rops sc sm sh st q)
@@ -1516,7 +1540,7 @@ Section Poisson3.
     lsumR D pts = 0 /\
     ((1 <= out_iter _ o)%Z -> out_err _ o <= tol -> nrm (fun p => D p - A (out_x _ o) p) <= tol * nrm D) /\
     ((1 <= out_iter _ o)%Z -> out_err _ o = 0 -> forall p, in_pmf3 sh p -> A (out_x _ o) p = D p) /\
-    ((1 <= out_iter _ o < Z.of_nat itmax)%Z -> out_err _ o <= tol).
+    ((1 <= out_iter _ o < Z.of_nat itmax)%Z -> out_err _ o <= tol \/ out_err _ o = 0).
   Proof.
     intros Hc. cbv zeta. unfold integrate3.
     assert (Hd : forall q, In q pts -> dv3 st q = div_value3 Rops sc sm sh st q)
@@ -1594,7 +1618,7 @@ Lemma poisson2_history sc sm (sh : shape2 (T:=R)) st0 pre h itmax tol x0 err0 :
   ((1 <= out_iter _ o)%Z -> out_err _ o <= tol ->
      l2norm Rops _ (all_ix2 sh) (fun p => D p - atimes2 Rops sh (out_x _ o) p) <= tol * l2norm Rops _ (all_ix2 sh) D) /\
   ((1 <= out_iter _ o)%Z -> out_err _ o = 0 -> forall p, in_pmf2 sh p -> atimes2 Rops sh (out_x _ o) p = D p) /\
-  ((1 <= out_iter _ o < Z.of_nat itmax)%Z -> out_err _ o <= tol).
+  ((1 <= out_iter _ o < Z.of_nat itmax)%Z -> out_err _ o <= tol \/ out_err _ o = 0).
 Proof.
   intros Hx Hy Hh. apply poisson2; auto. apply run2_consistent; auto. apply set_div2_consistent; auto.
 Qed.
@@ -1608,7 +1632,7 @@ Lemma poisson3_history sc sm (sh : shape3 (T:=R)) st0 pre h itmax tol x0 err0 :
   ((1 <= out_iter _ o)%Z -> out_err _ o <= tol ->
      l2norm Rops _ (all_ix3 sh) (fun p => D p - atimes3 Rops sh (out_x _ o) p) <= tol * l2norm Rops _ (all_ix3 sh) D) /\
   ((1 <= out_iter _ o)%Z -> out_err _ o = 0 -> forall p, in_pmf3 sh p -> atimes3 Rops sh (out_x _ o) p = D p) /\
-  ((1 <= out_iter _ o < Z.of_nat itmax)%Z -> out_err _ o <= tol).
+  ((1 <= out_iter _ o < Z.of_nat itmax)%Z -> out_err _ o <= tol \/ out_err _ o = 0).
 Proof.
   intros Hx Hy Hz Hh. apply poisson3; auto. apply run3_consistent; auto. apply set_div3_consistent; auto.
 Qed.
